@@ -46,8 +46,10 @@ EXPECT = {
     GB1: ('AB0001', 'ACGTACGGATCC', [('source', [(0, 12, '+')]), ('CDS', [(1, 7, '-')]), ('gene', [(1, 7, '-')])]),
     GB2: ('AB0002', 'TTGACAGGATCC', [('source', [(0, 12, '+')]), ('CDS', [(0, 3, '+'), (6, 9, '+')]), ('gene', [(0, 3, '+'), (6, 9, '+')])]),
 }
+GB1_CRLF = GB1.replace('\n', '\r\n')      # legal for an HTTP text body; StringIO does not translate it, a text-mode file does
+EXPECT[GB1_CRLF] = EXPECT[GB1]
 FASTA_PAY = [PAY[0], PAY[1], '>idc crlf\r\nACGT\r\nGGA\r\n', '>idd\nACGT\n\nTT\n']
-GB_PAY = [GB1, GB2]
+GB_PAY = [GB1, GB2, GB1_CRLF]
 
 
 # ----------------------------------------------------------------------------- generation
@@ -74,6 +76,8 @@ def gen_cases(rng, tier):
             m = rng.choice(['fetch_seq', 'fetch_seq', 'get_seq', 'fetch_basket', 'get_basket'] + (['get_seq', 'get_basket'] if varied else []))
             ids = [rng.randrange(2)] if m.endswith('seq') else [rng.randrange(2) for _ in range(rng.randrange(1, 4))]
             c = {'m': m, 'path': rng.choice([None, 0, 0, 1]), 'ids': ids, 'ext': rng.randrange(2), 'ow': rng.random() < 0.2}
+            if varied and rng.random() < .2:
+                c['path'] = 2
             if varied:      # the server answers differently over time (empty answers, CRLF, GenBank when asked for rettype=gb)
                 if rng.random() < .4:
                     c['rettype'] = 'gb'
@@ -195,11 +199,22 @@ def impl_cache(case):
     w.install()
     root = tempfile.mkdtemp(prefix='C19-')
     try:
-        dirs = [os.path.join(root, 'p0'), os.path.join(root, 'sub', 'p1')]   # the second does not exist yet
+        # the second does not exist yet; the third is relative to the working directory and starts with a directory literally
+        # called '~' (what Entrez creates for path='~/...': it does not expand the user directory, so nobody else may either)
+        dirs = [os.path.join(root, 'p0'), os.path.join(root, 'sub', 'p1'), os.path.join('~', 'cache')]
         for p, i, e, content in case['files']:
             os.makedirs(dirs[p], exist_ok=True)
             with open(os.path.join(dirs[p], SEQID[i] + '.' + (EXT[e] or 'fasta')), 'w', newline='') as f:
                 f.write(content)
+        saved_env = (os.getcwd(), os.environ.get('HOME'))
+        os.makedirs(os.path.join(root, 'cwd'))
+        os.makedirs(os.path.join(root, 'home', 'cache'))
+        for sid in SEQID:      # decoys: what a reader that expands '~' would find instead
+            for ext_ in ('fasta', 'fa', 'gb'):
+                with open(os.path.join(root, 'home', 'cache', sid + '.' + ext_), 'w') as f:
+                    f.write('>decoy\nTTTTTTTT\n')
+        os.chdir(os.path.join(root, 'cwd'))
+        os.environ['HOME'] = os.path.join(root, 'home')
         client = w.E.Entrez(path=None, api_key=None)
         out = []
         returned = []      # (object, what it showed when it was returned): earlier results must not change retroactively
@@ -267,6 +282,12 @@ def impl_cache(case):
         return out
     finally:
         w.restore()
+        if 'saved_env' in locals():
+            os.chdir(saved_env[0])
+            if saved_env[1] is None:
+                os.environ.pop('HOME', None)
+            else:
+                os.environ['HOME'] = saved_env[1]
         shutil.rmtree(root, ignore_errors=True)
 
 
